@@ -29,9 +29,18 @@ PACKS = {
     "needrev": dict(parent_factory=True, expand=False, empty_prefix_verified=True),
     "split": dict(split=True),
     "lazy": dict(lazy=True),
+    "trim": dict(trim=True),
+    "trimsym": dict(trim=True, sym=True),
+    "rename": dict(rename=True),
+    "mono": dict(mono=True),
+    "fac2": dict(fac2=True),
+    "symcycle": dict(sym=True, cycle=True),
     "oneway": dict(oneway=True, inf=True),
     "onewaysym": dict(oneway=True, inf=True, sym=True),
 }
+# packs whose point is a statistics mechanism always run with statistics; the cycle symmetry needs three letters
+PACK_STATS = {"trim": "s2", "trimsym": "s2", "rename": "s2", "mono": "s1"}
+PACK_EXTRA_PATTERNS = {"trim": [("ba",), ("aa", "ab"), ("ab",)], "trimsym": [("ba",)], "mono": [("ba",)]}
 STATS = {
     "s0": (),
     "s1": (("k1", "a"),),
@@ -54,7 +63,9 @@ def configs(tier: str, seed: int, flavours=("default", "forget", "forest"), pack
                     continue
                 if fl != "forest" and PACKS[pk].get("lazy"):
                     continue  # the pruning databases ignore shifts: they presuppose productive strategies
-                for st in stats:
+                if pk == "symcycle":
+                    continue  # three-letter alphabets only (below)
+                for st in ([PACK_STATS[pk]] if pk in PACK_STATS else stats):
                     if PACKS[pk].get("merge") and st in ("s0", "s1", "s2"):
                         continue
                     sch = rnd.choice(list(SCHEDULES)) if tier == "quick" else None
@@ -65,14 +76,22 @@ def configs(tier: str, seed: int, flavours=("default", "forget", "forest"), pack
         for fl in flavours:
             if "needrev" in packs:
                 out.append(("a", pats, "ab", stats[0], "needrev", fl, rnd.choice(list(SCHEDULES)), True))
-    for pats in PATTERN_SETS_ABC[: (4 if tier == "thorough" else 2)]:
-        for pk in ("plain", "factory", "inf"):
+    for pk, plist in PACK_EXTRA_PATTERNS.items():
+        if pk in packs:
+            for pats in plist:
+                for fl in flavours:
+                    out.append(("", pats, "ab", PACK_STATS[pk], pk, fl, rnd.choice(list(SCHEDULES)), True))
+    for pats in PATTERN_SETS_ABC[: (4 if tier == "thorough" else 2)] + [["ab", "cc"], ["bc", "aa"]]:
+        for pk in ("plain", "factory", "inf", "symcycle"):
+            if pk not in packs:
+                continue
             for fl in flavours:
                 out.append(("", tuple(pats), "abc", stats[0], pk, fl, "mixed", True))
     rnd.shuffle(out)
     if max_n:
         # configurations that must not be sampled away: the packs that exist for one specific mechanism
-        special = [c for c in out if c[4] in ("lazy", "needrev", "oneway", "onewaysym", "pfactory", "split")]
+        special = [c for c in out if c[4] in ("lazy", "needrev", "oneway", "onewaysym", "pfactory", "split", "trim", "trimsym", "rename",
+                                              "mono", "fac2", "symcycle")]
         keep = []
         seen = set()
         for c in special:
